@@ -82,7 +82,7 @@ def make_cases(ctx, n):
         hops = r.choice([0, 0, 1, min(ttl, 35) - 1])
         if hops >= ttl or hops < 0:
             hops = 0
-        cases.append(dict(sig=sig, ver=ver, base=impgen.base_packet(r, ver, syn_ack).hex(), kind=r.choice("ddddeep"), hops=hops,
+        cases.append(dict(sig=sig, ver=ver, base=impgen.base_packet(r, ver, syn_ack).hex(), kind=r.choice("ddddeepr"), hops=hops,
                           uptime=r.choice(["-", "-", "-", "0", "1", "123456", "4294967295", "4294967296"]), seed=r.randrange(2**31), origin="derived"))
     # 2. shipped signatures
     for resp, sig in shipped_tcp_sigs():
